@@ -114,7 +114,7 @@ pub fn generate(ctx: &mut Ctx) {
         }
         q.path = ppath;
         match rng.below(12) {
-            0 => q.scheme = Some("zz".into()),
+            0 => q.scheme = Some(match &p.scheme { Some(s) if rng.chance(1, 2) => if s.chars().any(|c| c.is_ascii_lowercase()) { s.to_ascii_uppercase() } else { s.to_ascii_lowercase() }, _ => "zz".to_string() }),
             1 => q.authority = Some("other".into()),
             2 => {
                 if let Some(a) = &p.authority {
